@@ -2,7 +2,7 @@
 //
 // It is deliberately tiny: it translates *expressions and predicate-shaped functions* (comparators,
 // guards, eligibility tests, constant tables) picked out of the source by a spec file into surface Lean
-// that mirrors the Go operators one-to-one, and emits for each a theorem `… = <hand-written model def> := rfl`.
+// that mirrors the Go operators one-to-one, and emits for each a theorem `… = <hand-written model def>` proved by `rfl` or, failing that, by extensional equality (`funext; simp only; grind`).
 // The model is hand-written; this regenerated file is re-checked by `lake build` on every run, so a change
 // to any translated expression in /repo breaks a proof obligation (the `rfl`), which bin/check reports.
 //
@@ -329,7 +329,10 @@ func main() {
 		}
 		fmt.Fprintf(&out, "\n/-- %s (%s) -/\ndef %s %s : %s := %s\n", strings.ReplaceAll(origin, "-/", "- /"), it.File, it.Lean, it.Params, it.Ret, rhs)
 		if it.Eq != "" {
-			fmt.Fprintf(&out, "theorem %s_eq : @%s = @%s := rfl\n", it.Lean, it.Lean, it.Eq)
+			// `rfl` when the Go expression has the surface form the model records; otherwise the two are
+			// proved extensionally equal (linear integer arithmetic + propositional structure), so a
+			// semantically equivalent rewrite of the Go expression keeps the tie and any other breaks it.
+			fmt.Fprintf(&out, "theorem %s_eq : @%s = @%s := by\n  first\n  | rfl\n  | (repeat (apply funext; intro)); simp only [%s, %s]; grind\n", it.Lean, it.Lean, it.Eq, it.Lean, it.Eq)
 		}
 	}
 	out.WriteString("\nend " + spec.Namespace + "\n")
